@@ -8,7 +8,7 @@
    iter_index t it = number of items before position it (= distance from begin).
    All statements hold for every 1 <= maxCapacity <= 255, every capacityStep, blockCount, search strategy. *)
 From Coq Require Import ZArith List.
-From C02 Require Import BTreeModel BTreeParams BTreeBase SplitSeg IndexTable BTreeSearch BTreeIter BTreeAdd BTreeRemove BTreeCtx BTreeRemove2 BTreeTrack BTreeRemove3 BTreeRange BTreeTop BTreeHist BTreeRemoveTop BTreeRangeTop BTreeHist2 BTreeMerge BTreeFast BTreeFast2 BTreeInsRange BTreeHist3 NodeOps NodeScript BTreeDecide BTreeSplitGen GenPrimsC02 Gen_TreeFacts BTreeFastDecide BTreeSearchGen ProtoSyntaxC02 Gen_TreeProto ProtoSemC02 ProtoProofsC02 ProtoIterC02 ProtoMoveC02 ProtoIncrC02.
+From C02 Require Import BTreeModel BTreeParams BTreeBase SplitSeg IndexTable BTreeSearch BTreeIter BTreeAdd BTreeRemove BTreeCtx BTreeRemove2 BTreeTrack BTreeRemove3 BTreeRange BTreeTop BTreeHist BTreeRemoveTop BTreeRangeTop BTreeHist2 BTreeMerge BTreeFast BTreeFast2 BTreeInsRange BTreeHist3 NodeOps NodeScript BTreeDecide BTreeSplitGen GenPrimsC02 Gen_TreeFacts BTreeFastDecide BTreeSearchGen ProtoSyntaxC02 Gen_TreeProto ProtoSemC02 ProtoProofsC02 ProtoIterC02 ProtoMoveC02 ProtoIncrC02 ProtoDecrC02.
 From Coq Require String.
 From MomoCommon Require Import GenPrelude.
 Import ListNotations.
@@ -714,15 +714,8 @@ Theorem C02_descent_is_generated :
 Proof. exact descent_is_find_first. Qed.
 Print Assumptions C02_descent_is_generated.
 
-(* PARTIAL, and since the last round only needed for operator--: the real operator++ / operator-- (with pvMoveIf / pvMove), interpreted
-   with the same semantics, agree with the hand model's next / prev at EVERY position of three concrete trees of height 2, two of which
-   contain an empty leaf that pvMove has to climb over.  For operator++ the general theorem is C02_iterator_increment_is_generated below;
-   for operator-- the general equality is not proved. *)
-Theorem C02_iterator_decrement_agrees_on_examples_partial :
-  andb (andb (steps_agree ex_t0) (steps_agree ex_t1)) (steps_agree ex_t2) = true /\
-  existsb (fun x => match x with (true, 0%nat, _) => true | _ => false end) (shape_of ex_t1) = true /\ cnt ex_t0 = 10%nat.
-Proof. exact iter_steps_agree_on_examples. Qed.
-Print Assumptions C02_iterator_decrement_agrees_on_examples_partial.
+(* (the examples-only theorem C02_iterator_..._agree_on_examples_partial that stood here was replaced by the general theorems
+   C02_iterator_increment_is_generated and C02_iterator_decrement_is_generated below) *)
 
 (* ===== growth round 6: half of the general iterator theorem; asserts kept as obligations =====
    The hand model's `next` (top-down recursion) is proved equal to a bottom-up "zipper" description that has exactly the structure of the
@@ -779,6 +772,32 @@ Theorem C02_iterator_increment_is_generated :
       e' k_mNode = Some (VPtr (Some (fst nx))) /\ e' k_mItemIndex = Some (VNum (Z.of_nat (snd nx))).
 Proof. exact incr_is_next. Qed.
 Print Assumptions C02_iterator_increment_is_generated.
+
+(* very last round: the GENERAL theorem for operator--.  Hand-model half: prev is the bottom-up zipper description of the real code
+   (step_back: stay in the leaf, or the rightmost leaf of child index with index = its count; then climb while index == 0); begin has none. *)
+Theorem C02_prev_is_bottom_up_zipper :
+  forall (maxCap d : nat) (r : node) (p : list nat) (j : nat) (m : node),
+    shape maxCap d r -> node_at p r = Some m -> (j <= n_count m)%nat ->
+    prev {| root := Some r; cnt := 0 |} (p, j) =
+    match back (fst (step_back d r p j)) (snd (step_back d r p j)) with Some it => it | None => (p, j) end.
+Proof. exact prev_is_zipper. Qed.
+Print Assumptions C02_prev_is_bottom_up_zipper.
+
+(* the REAL TreeSetConstIterator::operator-- (dumped statement tree, interpreted, MOMO_CHECKs as obligations), started at ANY position
+   (end included) of ANY well-formed tree: if the position has a predecessor it passes every obligation, returns, and leaves the iterator at
+   the hand model's prev; at begin (no predecessor) it is Stuck on MOMO_CHECK(node != nullptr) - and the hand prev returns its argument *)
+Theorem C02_iterator_decrement_is_generated :
+  forall (maxCap : nat) (r : node) (d : nat) (p : list nat) (m : node) (j : nat) (e : env) (k : nat),
+    shape maxCap d r -> node_at p r = Some m -> (j <= n_count m)%nat ->
+    e k_mNode = Some (VPtr (Some p)) -> e k_mItemIndex = Some (VNum (Z.of_nat j)) ->
+    let pv := prev {| root := Some r; cnt := 0 |} (p, j) in
+    match back (fst (step_back d r p j)) (snd (step_back d r p j)) with
+    | Some _ => exists e', ProtoSemC02.exec false (fun _ : Z => false) r decr_calls (20 + (d + k)) e iter_decr = RReturn VUnit e' /\
+                  e' k_mNode = Some (VPtr (Some (fst pv))) /\ e' k_mItemIndex = Some (VNum (Z.of_nat (snd pv)))
+    | None => ProtoSemC02.exec false (fun _ : Z => false) r decr_calls (20 + (d + k)) e iter_decr = RStuck /\ pv = (p, j)
+    end.
+Proof. exact decr_is_prev. Qed.
+Print Assumptions C02_iterator_decrement_is_generated.
 
 (* non-vacuity: a concrete reachable state (maxCapacity 2, ten insertions with duplicates) has height 2 *)
 Theorem C02_nonvacuous_example :
